@@ -15,6 +15,7 @@ import (
 	"time"
 
 	"github.com/mdlayher/corerad/internal/config"
+	"github.com/mdlayher/corerad/internal/netstate"
 	"github.com/mdlayher/corerad/internal/plugin"
 	"github.com/mdlayher/corerad/internal/verifh"
 	"github.com/mdlayher/ndp"
@@ -30,6 +31,8 @@ type stopScenario struct {
 	Release                []int64 // ... until cancel + Release[k] (k-th gated write, cyclic); negative = before the cancel
 	OneP                   bool    // run on a single P: the solicitation and the cancel reach the scheduler's select together
 	CancelInRead           bool    // the cancel happens inside the listener's next ReadFrom, right behind the last delivered solicitation
+	FailGated              bool    // the gated (in-flight) transmissions fail when released
+	CloseWatch             int     // 1: the link-state subscription is closed just before the cancel, 2: just after (as netstate.Watcher does at shutdown)
 	Tags                   []string
 }
 
@@ -53,7 +56,16 @@ func runStopScenario(t *testing.T, sc stopScenario) verifh.Case {
 			Plugins: []plugin.Plugin{
 				&plugin.Prefix{Prefix: netip.MustParsePrefix("2001:db8::/64"), OnLink: true, ValidLifetime: time.Hour, PreferredLifetime: time.Minute},
 				&plugin.LLA{}}}
-		v := newVAdvertiser(cfg, func() bool { return sc.Terminate })
+		var watchC chan netstate.Change
+		if sc.CloseWatch != 0 {
+			watchC = make(chan netstate.Change, 8)
+		}
+		var v *vAdvertiser
+		if watchC != nil {
+			v = newVAdvertiserW(cfg, func() bool { return sc.Terminate }, watchC)
+		} else {
+			v = newVAdvertiser(cfg, func() bool { return sc.Terminate })
+		}
 		seed := time.Now().UnixNano()
 		start := time.Now()
 		cancelAt = sc.CancelAt
@@ -94,6 +106,9 @@ func runStopScenario(t *testing.T, sc stopScenario) verifh.Case {
 				lastRelease = n
 			}
 			mu.Unlock()
+			if sc.FailGated && !final {
+				return errInjected
+			}
 			return nil
 		}
 
@@ -127,8 +142,14 @@ func runStopScenario(t *testing.T, sc stopScenario) verifh.Case {
 			<-done
 		} else {
 			time.Sleep(time.Until(cancelT))
+			if sc.CloseWatch == 1 {
+				close(watchC)
+			}
 			v.conn.logEvent("cancel", 0)
 			cancel()
+			if sc.CloseWatch == 2 {
+				close(watchC)
+			}
 			<-done
 		}
 		// anything the advertiser still does after Run returned shows up after "return"
@@ -238,6 +259,18 @@ func TestVerifC08(t *testing.T) {
 			// scheduled multicast in flight
 			emit(stopScenario{ID: "inflight-multi", Terminate: term, UnicastOnly: uo, Events: []advEvent{{At: 4e9 + 1, Src: "::"}}, CancelAt: 7e9 + 5,
 				GateMulti: true, Release: []int64{1e9}, Tags: tag("multicast-in-flight")})
+			// an in-flight transmission fails when it is released after the stop
+			for _, rel := range [][]int64{{1e6}, {2e9, 1e6, 1e9}} {
+				emit(stopScenario{ID: "inflight-fails", Terminate: term, UnicastOnly: uo, Events: three, CancelAt: T + 600e6,
+					GateUnicast: true, FailGated: true, Release: rel, Tags: tag("in-flight-fails")})
+			}
+			// the watcher closes the link-state subscription when the daemon stops: never a link change
+			for rep := 0; rep < 3; rep++ {
+				for _, cw := range []int{1, 2} {
+					emit(stopScenario{ID: "watch-closed", Terminate: term, UnicastOnly: uo, Events: one[:rep%2], CancelAt: T + 700e6, CloseWatch: cw,
+						OneP: rep > 0, Tags: tag("watch-closed-at-stop")})
+				}
+			}
 			// the final RA itself is slow
 			emit(stopScenario{ID: "slow-final", Terminate: term, UnicastOnly: uo, Events: one, CancelAt: T + 600e6,
 				GateUnicast: true, GateFinal: true, Release: []int64{1e9, 2e9}, Tags: tag("final-slow")})
